@@ -139,7 +139,13 @@ def _shape(expr, variables):
     return re.sub(r'[a-z]+\d?', lambda m: type(env[m.group(0)]).__name__ if m.group(0) in env else m.group(0), expr)
 
 
-def make_table(variables):
+# operands written as signed literals (the sign is a unary operator applied to a literal): operators whose result
+# type depends on the operand's *sign* (power, shifts) are left out, as for the second representatives above
+SIGNED = {'ni': '-3', 'nf': '-2.5', 'pf': '+2.5', 'nn': '-(-3)', 'i': '3', 'f': '2.5', 's': "'ab'", 'l': '[1, 2]', 't': '(1, 2)'}
+SIGNED_OPS = [o for o in OPS if o not in ('**', '<<', '>>')]
+
+
+def make_table(variables, OPS=OPS):
     names = list(variables)
 
     def body(ctx):
@@ -285,6 +291,8 @@ def phases(tier):
     ph = [Phase('table', make_table(both), setup=_setup, chunk=100, describe='operator x ordered pair of core-typed variables (two values per type)'),
           Phase('trees', make_trees(CORE, ARITH, OPS), setup=_setup, chunk=100,
                 describe='all depth-2 trees: arithmetic inner operator, any outer operator, 5 core variables'),
+          Phase('signed-literals', make_table(SIGNED, SIGNED_OPS), setup=_setup, chunk=100,
+                describe='operator x ordered pair of variables among which negative / explicitly signed int and float literals'),
           Phase('container-elements', body_elements, setup=_setup, chunk=100,
                 describe='+ and * over containers with different element types, empty containers, zero/negative counts'),
           Phase('reassigned-operands', body_reassigned, setup=_setup, chunk=100,
